@@ -267,7 +267,7 @@ def gen_pf_cases(ctx, n, modes=('s', 'a', 'c'), waits=(0, 1), pools=(0, 1, 2, 3,
         g = r.choice([1, 1, 2, 3, 4, 5, 7, 8, 8, 16, 17, 32, 63, 64, r.randint(1, 64)])
         g = max(g, gmin)
         maxsz = hi if sg else hi - lo
-        maxsz = min(maxsz, (1 << 62))
+        maxsz = min(maxsz, (1 << 61))
         sm = r.random()
         if sm < 0.25:
             size = r.randint(0, 40)
@@ -277,13 +277,15 @@ def gen_pf_cases(ctx, n, modes=('s', 'a', 'c'), waits=(0, 1), pools=(0, 1, 2, 3,
             size = r.choice([N, N + 1, N + 2, g * (N + 1), g * (N + 1) + 1, g * N, max(0, g * (N + 1) - 1), g - 1, g, g + 1, 2 * g,
                              64 * (N + 1), 64 * (N + 1) + 1, 16 * (N + 1) - 1])
         else:
-            size = r.randint(0, 1 << r.randint(1, 62))
+            size = r.randint(0, 1 << r.randint(1, 61))
         size = max(0, min(size, maxsz))
         chunk = 0
         if mode == 'c':
             chunk = r.choice([1, 2, 3, 5, 8, 17, 100, max(1, size // 2), max(1, size), size + 1, max(1, size // 7)])
             chunk = max(chunk, (size + 2999) // 3000, 1)       # keep the number of chunks recordable
             chunk = min(chunk, hi)                             # chunk == kStatic is simply the static mode
+            if w == 64 and r.random() < 0.03:                  # huge explicit chunk: size + chunk leaves size_type
+                chunk = hi - 1 - r.randint(0, max(0, min(size, 1000) - 1))
         pos = r.random()
         if pos < 0.25:
             s = lo
